@@ -359,23 +359,27 @@ func (o *setObj) closures() *setObj {
 func init() {
 	lt := func(a, b int) bool { return a < b }
 	register("set", &component{
-		classes: []string{"unordered/fresh", "unordered/empty", "unordered/nonempty", "ordered/empty", "ordered/nonempty"},
+		classes: []string{"unordered/fresh", "unordered/empty", "unordered/nonempty", "unordered/differs", "ordered/empty", "ordered/nonempty", "ordered/differs"},
 		build: func(w *world, class string) {
 			cfg, state, _ := strings.Cut(class, "/")
-			mkset := func() *dt.Set[int] {
+			mkset := func(shift int) *dt.Set[int] {
 				s := &dt.Set[int]{}
 				s.Synchronize()
 				if cfg == "ordered" {
 					s.Order()
 				}
-				if state == "nonempty" {
+				if state == "nonempty" || state == "differs" {
 					for i := 0; i < 12; i++ {
-						s.Add(i * 3)
+						s.Add(i*3 + shift)
 					}
 				}
 				return s
 			}
-			o := &setObj{s: mkset(), o: mkset()}
+			shift := 0
+			if state == "differs" { // same size, other members: Equal has to look at the members
+				shift = 1
+			}
+			o := &setObj{s: mkset(0), o: mkset(shift)}
 			if state != "fresh" {
 				o.closures()
 			}
